@@ -15,6 +15,7 @@ import NutsModel.C19.StatusList
 import NutsModel.C19.DidKey
 import NutsModel.C19.DidWeb
 import NutsModel.C19.Ambassador
+import NutsModel.C19.HttpCache
 namespace Nuts.C19.Sites
 open Nuts
 
@@ -529,7 +530,35 @@ def expected : List (String × List Entry) := [
     ⟨"index:encoded[1]", .site "percentDecodeChar:encoded[1]"⟩,
     ⟨"index:encoded[2]", .site "percentDecodeChar:encoded[2]"⟩]),
   ("vdr/didweb/util.go:isHex", []),
-  ("vdr/didweb/util.go:unhex", [])]
+  ("vdr/didweb/util.go:unhex", []),
+  ("http/client/caching.go:responseCache.insert", [
+    ⟨"lencheck:len(entry.responseData) > h.maxBytes", .total "sanity check (model: HttpCache.insert)"⟩,
+    ⟨"defer:h.mux.Unlock", .total "the mutex is released on every return; a loop that does not terminate keeps it for ever"⟩,
+    ⟨"for:h.head != nil && h.currentSizeBytes + len(entry.responseData) > h.maxBytes", .total "every iteration pops one entry off a non-empty expiry list: measure = its length (httpcache_make_room_terminates); without `h.head != nil` the loop spins on an empty list (httpcache_unguarded_loop_spins)"⟩,
+    ⟨"nilcheck:h.head == nil", .total "test"⟩,
+    ⟨"for:current.next != nil && current.next.expirationTime.Before(entry.expirationTime)", .total "walks the acyclic expiry list (model: structural recursion insertAfterHead)"⟩,
+    ⟨"indexw:h.entriesByURL[entry.requestURL.String()]", .total "entriesByURL is made by newCache, never nil"⟩,
+    ⟨"index:h.entriesByURL[entry.requestURL.String()]", .total "map read"⟩]),
+  ("http/client/caching.go:responseCache.pop", [
+    ⟨"nilcheck:h.head == nil", .total "guard of h.head.requestURL: pop on an empty list changes nothing (model: HttpCache.pop)"⟩,
+    ⟨"index:h.entriesByURL[requestURL]", .total "map read"⟩,
+    ⟨"range:entries", .total "bounded loop"⟩,
+    ⟨"indexw:h.entriesByURL[requestURL]", .total "entriesByURL is made by newCache, never nil"⟩,
+    ⟨"slice:entries[:i]", .total "i ranges over entries"⟩,
+    ⟨"slice:entries[i + 1:]", .total "i ranges over entries: i+1 <= len"⟩,
+    ⟨"lencheck:len(h.entriesByURL[requestURL]) == 0", .total "test"⟩,
+    ⟨"index:h.entriesByURL[requestURL]", .total "map read"⟩]),
+  ("http/client/caching.go:responseCache.removeExpiredEntries", [
+    ⟨"for:current != nil", .total "every iteration pops the head or breaks (model: structural recursion removeExpired)"⟩]),
+  ("http/client/caching.go:responseCache.get", [
+    ⟨"defer:h.mux.Unlock", .total "released on return"⟩,
+    ⟨"index:h.entriesByURL[httpRequest.URL.String()]", .total "map read"⟩,
+    ⟨"range:entries", .total "bounded loop"⟩]),
+  ("http/client/caching.go:CachingRoundTripper.RoundTrip", [
+    ⟨"nilcheck:response != nil", .total "test"⟩,
+    ⟨"rec:r.wrappedTransport.RoundTrip", .total "not a self call: the wrapped transport (same method name)"⟩]),
+  ("http/client/caching.go:CachingRoundTripper.cacheResponse", [
+    ⟨"lencheck:len(reasons) > 0", .total "test"⟩])]
 
 def expectedOps : List (String × List String) := expected.map fun p => (p.1, p.2.map (·.go))
 
@@ -594,6 +623,13 @@ def docUnmarshalSites : List (String × Bool) := [
 
 def expectedDocUnmarshals : List String :=
   docUnmarshalSites.map fun p => p.1 ++ (if p.2 then ":after-RejectNullKeyEntries" else ":UNGUARDED")
+
+/-- the make-room loop of responseCache.insert as the source spells it today -/
+def httpCacheCfg : HttpCache.Cfg :=
+  { headGuard := has "http/client/caching.go:responseCache.insert" "for:h.head != nil && h.currentSizeBytes + len(entry.responseData) > h.maxBytes"
+      || has "http/client/caching.go:responseCache.insert" "for:h.head != nil && h.currentSizeBytes + len(entry.responseData) >= h.maxBytes"
+    strict := has "http/client/caching.go:responseCache.insert" "for:h.head != nil && h.currentSizeBytes + len(entry.responseData) > h.maxBytes"
+      || has "http/client/caching.go:responseCache.insert" "for:h.currentSizeBytes + len(entry.responseData) > h.maxBytes" }
 
 def ibltCfg : Iblt.Cfg :=
   { k := Facts.C19.ibltK
